@@ -377,7 +377,7 @@ Fixpoint skip_semis (fuel : nat) : M unit :=
 Definition skip_all_semis : M unit := fun d s => skip_semis (S (length (toks s))) d s.
 
 (** [expecting] = expecting_statement_delimiter; [acc] = statements so far, reversed. *)
-Fixpoint statements_loop {A} (fuel : nat) (stmt : M A) (expecting : bool) (acc : list A) : M (list A) :=
+Fixpoint statements_loop {A} (blk : bool) (fuel : nat) (stmt : M A) (expecting : bool) (acc : list A) : M (list A) :=
   match fuel with
   | O => diverge
   | S n =>
@@ -389,13 +389,18 @@ Fixpoint statements_loop {A} (fuel : nat) (stmt : M A) (expecting : bool) (acc :
       match tok t with
       | TEOF => ret (rev acc)
       | _ =>
-          if expecting' && is_kw (s2l "END") t then ret (rev acc)
+          if blk && expecting' && is_kw (s2l "END") t then ret (rev acc)
           else if expecting' then expected (s2l "end of statement") t
-          else a <- stmt ;; statements_loop n stmt true (a :: acc)
+          else a <- stmt ;; statements_loop blk n stmt true (a :: acc)
       end
   end.
+(** [blk = false]: the public [Parser::parse_statements] (only the end of the input ends the list);
+    [blk = true]: the body of a BEGIN .. END block (parse_create_procedure), which also ends in
+    front of an END keyword that follows a statement. *)
 Definition parse_statements {A} (fuel : nat) (stmt : M A) : M (list A) :=
-  statements_loop fuel stmt false [].
+  statements_loop false fuel stmt false [].
+Definition parse_statement_block {A} (fuel : nat) (stmt : M A) : M (list A) :=
+  statements_loop true fuel stmt false [].
 
 (** * The closure language: first-order programs over the interface, interpreted here and
       (the fragment reachable through the public API) by harness/machx against the real parser. *)
